@@ -564,6 +564,13 @@ def set_eip(dst):
     return ExprAff(eip, dst)
 
 def mov(info, a, b):
+    if a.get_size() < b.get_size():
+        # mov Sreg, r32 (the selector is the low word), mov r16, CRn
+        b = b[:a.get_size()]
+    elif a.get_size() > b.get_size():
+        # mov r32, Sreg / mov CRn, r16: zero-extended
+        b = ExprCompose([(b, 0, b.get_size()),
+                         (ExprInt_from(b, 0), b.get_size(), a.get_size())])
     return [ExprAff(a, b)]
 
 def xchg(info, a, b):
@@ -585,7 +592,11 @@ def movsx(info, a, b):
                                     ]))]
 
 def lea(info, a, b):
-    return [ExprAff(a, b.arg)]
+    src = b.arg
+    if src.get_size() > a.get_size():
+        # lea r16, [32-bit address]: the low word
+        src = src[:a.get_size()]
+    return [ExprAff(a, src)]
 
 def add(info, a, b):
     e= []
@@ -1264,6 +1275,9 @@ def call(info, a, b):
 
     c = ExprOp('+', myesp, ExprInt(int_cast(-s/8)))
     e.append(ExprAff(myesp, c))
+    if a.get_size() > s:
+        # 16-bit operand size: the low word of the return address
+        a = a[:s]
     e.append(ExprAff(ExprMem(c, size=s), a))
     e.append(set_eip(b))
     return e
